@@ -173,6 +173,9 @@ impl<'a> Ctx<'a> {
             if any != want_any {
                 self.mismatch(path, "C11", format!("has_any_attribute = {any:?}, specification {want_any:?}"));
             }
+            if nb.transaction_id() != b.transaction_id() || !nb.has_class(MessageClass::Request) || nb.has_class(MessageClass::Success) {
+                self.mismatch(path, "C11", "transaction_id()/has_class() of the builder changed".into());
+            }
             let len = nb.byte_len();
             if len as u64 != dst["len"].as_u64().unwrap() {
                 self.mismatch(path, "C03", format!("byte_len() = {len}, specification {}", dst["len"]));
